@@ -15,10 +15,12 @@ from props.c11 import GEN, DRIVER, TECHNIQUE  # noqa: F401
 
 PROP = "C12"
 LEAN_FILES = ["QibProofs/Properties/C12.lean"]
-LEVEL_TEXT = ("Lean 4 theorems, for every lattice size and every field operator, over the executable model of the parity encoder "
+LEVEL_TEXT = ("Lean 4 theorems, for every lattice size, every site and every field operator, over the executable model of the parity encoder "
               "(update set X on sites >= i, parity Z on site i-1; product expansion shared with the Jordan-Wigner model), built on the "
-              "Pauli-string model whose tables are regenerated from the source on every run; tied to the code by differential runs "
-              "with exact comparison of the (string, weight) sets.")
+              "Pauli-string model whose tables are regenerated from the source on every run: CAR, adjoint, vacuum, sum-of-products form, "
+              "number operator, difference from Jordan-Wigner, and unitary equivalence with the field operator by the signed "
+              "prefix-parity permutation (so spectra are preserved - proved, not cited); tied to the code by differential runs with "
+              "exact comparison of the (string, weight) sets.")
 ASSUMPTIONS = base.ASSUMPTIONS[:3] + [
     "the oracle's fermionic reference uses the sign string on later sites (field_operator.py:201-217); the signed permutation "
     "V|n> = (-1)^{N(N-1)/2} |prefix parities of n> relates it to the parity-encoded operator",
